@@ -530,7 +530,11 @@ impl Runner {
 
     pub fn dump(&self) -> Dump {
         let snap = self.engine().snapshot();
-        dump_snapshot(&snap, self.model.next_iid)
+        let mut d = dump_snapshot(&snap, self.model.next_iid);
+        if !self.model.indexes.is_empty() {
+            d.inv.extend(crate::dump::index_soundness(&snap, &self.model));
+        }
+        d
     }
 
     pub fn reopen(&mut self) -> Result<(), String> {
